@@ -20,7 +20,7 @@ for i in range(8, 16):
 ARGREGS = ["rdi", "rsi", "rdx", "rcx", "r8", "r9"]
 
 KNOWN = set("""
-movq movl mov leaq addq add incq subq subl sub andq shl shr shlq shrq cmpq cmp testq test
+nop movq movl mov leaq addq add incq subq subl sub andq shl shr shlq shrq cmpq cmp testq test
 jb jae jbe ja je jne jz jnz jl jle jg jge jmp pushq popq retq ret
 vmovapd vmovupd vmovdqu vmovdqa vmovd vmovq vmulpd vaddpd vsubpd vaddsubpd vfmadd231pd vfmsub231pd
 vfnmadd231pd vfnmsub231pd vshufpd vperm2f128 vzeroall vzeroupper vpaddd vpsubd vpand vpsrld vpxor
